@@ -92,6 +92,10 @@ MIME = {'png': 'image/png', 'jpeg': 'image/jpeg', 'svg': 'image/svg+xml', 'css':
         'font': 'font/otf', 'blob': 'application/octet-stream'}
 
 
+USE_TARGET = (b'<svg xmlns="http://www.w3.org/2000/svg" width="20" height="10">'
+              b'<rect id="frag" x="1" y="1" width="3" height="3" fill="blue"/></svg>')
+
+
 def svg_source(kids):
     parts = ['<svg xmlns="http://www.w3.org/2000/svg" xmlns:xlink="http://www.w3.org/1999/xlink" '
              'width="20" height="10" viewBox="0 0 20 10">',
@@ -106,6 +110,10 @@ def svg_source(kids):
             parts.append('<use href="%s"/>' % _xml(k['ref']))
     parts.append('</svg>')
     return ''.join(parts).encode()
+
+
+def _orient(it):
+    return ' style="image-orientation:90deg"' if it.get('orient') else ''
 
 
 def _xml(s):
@@ -161,7 +169,7 @@ def build_world(doc):
         if v['t'] == 'svgimage':
             image(v)
         elif v['t'] == 'svguse':
-            world[v['abs']] = (svg_source([]), MIME['svg'], 'use')
+            world[v['abs']] = (USE_TARGET, MIME['svg'], 'use')
 
     def sheet(kids):
         for k in kids:
@@ -217,7 +225,7 @@ def doc_html(doc):
             # the document without the reference: images lose the attribute, the rest loses the element
             if it['t'] == 'img':
                 alt = it.get('alt')
-                body.append('<div><img id="i%d"%s></div>' % (it['id'], '' if alt is None else ' alt="%s"' % alt))
+                body.append('<div><img id="i%d"%s%s></div>' % (it['id'], '' if alt is None else ' alt="%s"' % alt, _orient(it)))
             elif it['t'] == 'object':
                 body.append('<div><object id="i%d" type="%s">fb%d</object></div>' % (it['id'], MIME[it['fmt']], it['id']))
             elif it['t'] == 'embed':
@@ -236,8 +244,8 @@ def doc_html(doc):
             sheet_targets(it['kids'])
         elif t == 'img':
             alt = it.get('alt')
-            body.append('<div><img id="i%d" src="%s"%s></div>' % (
-                it['id'], _xml(it['ref']), '' if alt is None else ' alt="%s"' % alt))
+            body.append('<div><img id="i%d" src="%s"%s%s></div>' % (
+                it['id'], _xml(it['ref']), '' if alt is None else ' alt="%s"' % alt, _orient(it)))
         elif t == 'object':
             body.append('<div><object id="i%d" data="%s" type="%s">fb%d</object></div>' % (
                 it['id'], _xml(it['ref']), MIME[it['fmt']], it['id']))
@@ -701,10 +709,12 @@ _EXC = {'OSError': OSError, 'ValueError': ValueError, 'KeyError': KeyError, 'Tim
         'EOFError': EOFError, 'LookupError': LookupError, 'TypeError': TypeError, 'AttributeError': AttributeError,
         'MemoryError': MemoryError, 'RecursionError': RecursionError, 'StopIteration': StopIteration,
         'UnicodeError': UnicodeError, '_MyErr': _MyErr, 'NotImplementedError': NotImplementedError,
-        'KeyboardInterrupt': KeyboardInterrupt, 'SystemExit': SystemExit, 'GeneratorExit': GeneratorExit}
+        'KeyboardInterrupt': KeyboardInterrupt, 'SystemExit': SystemExit, 'GeneratorExit': GeneratorExit,
+        'IncompleteRead': __import__('http.client').client.IncompleteRead, 'zliberror': zlib.error}
 
 GOOD = {0: lambda: raster_bytes(5), 1: lambda: b'p{color:red}', 2: lambda: b'p{color:red}',
-        3: font_bytes, 4: lambda: b'payload'}
+        3: font_bytes, 4: lambda: b'payload',
+        5: lambda: b'<svg xmlns="http://www.w3.org/2000/svg"><rect id="a" width="5" height="5"/></svg>'}
 
 
 class _EvFile:
@@ -739,7 +749,7 @@ def consume_direct(case):
     URL = 'http://x/u'
 
     def fetcher(url):
-        events.append(['called', 'u' if url == URL else url])
+        events.append(['called', 'u' if url in (URL, URL + '#a') else url])
         if fr['t'] == 'raise':
             raise _EXC[fr['cls']](fr.get('msg', 'boom'))
         if fr['t'] == 'notdict':
@@ -774,8 +784,19 @@ def consume_direct(case):
                 fc.add_font_face({'src': [('external', URL)], 'font_family': 'fz%d' % case.get('n', 0)}, fetcher)
                 failed = any('cannot be loaded' in m for _, m in logs.records)
                 code = 1 if failed else 0
-            else:
+            elif k == 4:
                 r = write_pdf_attachment(pydyf.PDF(), Attachment(url=URL, url_fetcher=fetcher), False)
+                code = 0 if r is not None else 1
+            else:
+                from xml.etree import ElementTree
+                from weasyprint.svg import SVG
+                from weasyprint.svg.defs import get_use_tree
+                tree = ElementTree.fromstring(
+                    '<svg xmlns="http://www.w3.org/2000/svg"><use href="%s#a"/></svg>' % URL)
+                svg = SVG(tree, 'http://x/doc.svg', fetcher)
+                svg.url_fetcher = fetcher      # what SVG.draw() sets before drawing
+                node = next(iter(svg.tree))
+                r = get_use_tree(svg, node, 12)
                 code = 0 if r is not None else 1
         except BaseException as exc:   # noqa
             code, name = 2, type(exc).__name__
